@@ -1,1 +1,2 @@
 pub mod flow;
+pub mod rxsim;
